@@ -70,7 +70,7 @@ def strat_plots(draw, tier="quick"):
                                       model_sources=False, constraints=False, min_points=5))
             else:
                 spec = draw(S.xy_spec(families=["line", "quad", "cubic", "expo", "sincos", "power", "lorentz"], costs=("chi2", "chi2", "chi2_covariance", "nll_gaussian"),
-                                      n_sources=(1, 4), minimizers=(mini,), min_points=5, sigma_rel=(0.01, 0.08)))
+                                      n_sources=(1, 4), minimizers=(mini,), min_points=5, sigma_rel=(0.01, 0.08), y_scales=(None, None, None, 1e-6, 1e-3, 1e4)))
                 if not any((s.get("axis") or "y") == "y" and not s["relative"] and s.get("enabled", True) and s.get("rho", 0) < 1 and s["kind"] == "simple"
                            for s in spec["sources"]):  # a plain y source of either reference keeps the problem well-posed (model-only mixes are wanted)
                     spec["sources"].insert(0, {"name": "base", "ref": "data", "axis": "y", "kind": "simple", "scalar": True, "err": [spec["sigma"]] * 8, "rho": 0.0, "relative": False,
